@@ -5,17 +5,18 @@ import os
 
 ROOT = os.path.dirname(os.path.dirname(os.path.abspath(__file__)))
 
-CLAIMS = {
- 'C20': dict(
-  text='Machine-checked proof (Coq 8.16.1) about the Gallina translation of itf8/ltf8 Len, Encode, Decode that /verif/gen regenerates from the Go source on every run: '
-       'round trip for every int32/int64, bytes equal the CRAM encoding, Decode equals the specification decoder on every byte string (so it never panics, '
-       'never looks past the announced length and fails exactly on short input). The translation is validated on every run by evaluating it inside Coq on the cases the implementation ran.',
-  note='Trusted: Coq kernel; the translator gen/ (expression/statement subset, fixed-width wrap, bounds-checked indexing; Go int as unbounded Z); '
-       'clz8 models math/bits.LeadingZeros8; high nibble of the 5th ITF-8 byte treated as insignificant. No axioms (Print Assumptions: closed). '
-       'The stream readers in cram.go are exercised by correspondence only.',
-  technique='Coq proof over source-regenerated Gallina + vm_compute correspondence + spec oracle',
-  design='6/C20'),
-}
+import importlib
+import sys
+sys.path.insert(0, os.path.join(ROOT, 'lib'))
+
+# Each lib/cNN.py carries its own CLAIM = dict(text=, note=, technique=, design=).
+CLAIMS = {}
+for n in range(1, 21):
+    pid = 'C%02d' % n
+    if os.path.exists(os.path.join(ROOT, 'lib', pid.lower() + '.py')):
+        m = importlib.import_module(pid.lower())
+        if getattr(m, 'CLAIM', None):
+            CLAIMS[pid] = m.CLAIM
 
 NOT_YET = 'check not built yet (work in progress; see DESIGN.md section 10 for the order of work)'
 
@@ -56,7 +57,7 @@ def main():
         f.write('\n')
 
 
-HOOK_COMMITS = []
+HOOK_COMMITS = [l.strip() for l in open(os.path.join(ROOT, 'MANIFEST.hooks')) if l.strip() and not l.startswith('#')] if os.path.exists(os.path.join(ROOT, 'MANIFEST.hooks')) else []
 
 if __name__ == '__main__':
     main()
